@@ -184,3 +184,61 @@ Proof.
   intros p H. vm_compute in H. repeat (destruct H as [<-|H]; [reflexivity|]). destruct H.
 Qed.
 Print Assumptions C14_class_nonvacuous.
+
+(* ---------------- unparseable range strings at configuration level ----------------
+   What the code does today (model variant "defective" = [validate], [build]): a range whose svlan or cvlan
+   string does not parse contributes no claim.  [build], [lookup], [ref_lookup] and [validate] are functions of
+   [claims cfg] only, so such a range is invisible to all of them: it is neither indexed nor rejected. *)
+Theorem C14_malformed_range_ignored :
+  forall name i sv cv rest, parse_vlan_range sv = None \/ parse_cvlan cv = None ->
+  range_claims name i ((sv, cv) :: rest) = range_claims name (S i) rest.
+Proof. exact malformed_range_no_claims. Qed.
+Print Assumptions C14_malformed_range_ignored.
+
+(* ... hence "malformed range strings are rejected" FAILS for today's commit-time validation: a configuration
+   whose only range is svlan "5000" is accepted and has no claim at all (finding
+   ValidateMatchIndex:malformed-range-skipped) *)
+Definition bad_cfg : config := [ ([97], [([53;48;48;48], [])]) ]%N.            (* "a": svlan "5000", cvlan "" *)
+Theorem C14_validate_malformed_refuted :
+  exists cfg g r, In g cfg /\ In r (snd g) /\ parse_vlan_range (fst r) = None /\
+                  validate cfg = None /\ claims cfg = [].
+Proof.
+  exists bad_cfg, ([97]%N, [([53;48;48;48]%N, [])]), ([53;48;48;48]%N, []).
+  vm_compute. repeat split; auto.
+Qed.
+Print Assumptions C14_validate_malformed_refuted.
+
+(* the repaired validation (variant "repaired", fixes/C14_validate_rejects_malformed.patch) accepts a configuration
+   iff every svlan / cvlan string of every range parses and no two claims share (S-VLAN, selector) *)
+Theorem C14_strict_accepts_iff :
+  forall cfg, validate_strict cfg = VOk <-> all_parse cfg /\ NoDup (map key (claims cfg)).
+Proof. exact strict_accepts_iff. Qed.
+Print Assumptions C14_strict_accepts_iff.
+
+(* a configuration containing a range string outside 1-4094 or malformed (see C14_parser_exact, C14_cvlan_syntax
+   for what that means) is rejected *)
+Theorem C14_strict_rejects_malformed :
+  forall cfg g r, In g cfg -> In r (snd g) ->
+  parse_vlan_range (fst r) = None \/ parse_cvlan (snd r) = None -> validate_strict cfg <> VOk.
+Proof. exact strict_rejects_malformed. Qed.
+Print Assumptions C14_strict_rejects_malformed.
+
+(* on configurations without such strings nothing changes: same verdict, same reported collision *)
+Theorem C14_strict_agrees :
+  forall cfg, all_parse cfg -> validate_strict cfg = verdict_of (validate cfg).
+Proof. exact strict_agrees. Qed.
+Print Assumptions C14_strict_agrees.
+
+Example C14_strict_nonvacuous :
+  validate_strict bad_cfg = VMalformed [97]%N 0%nat true /\
+  validate_strict [ ([97], [([49;48], [52;48;57;53])]) ]%N = VMalformed [97]%N 0%nat false /\   (* cvlan "4095" *)
+  validate_strict ex_cfg = VCollision 12 SelAny [97]%N [98]%N /\
+  validate_strict [ ([97], [([49;48], [49;48;48]); ([49;50], [97;110;121])]) ]%N = VOk /\
+  all_parse ex_cfg.
+Proof.
+  repeat split; try (vm_compute; reflexivity).
+  intros g r Hg Hr. simpl in Hg.
+  repeat (destruct Hg as [<-|Hg]; [simpl in Hr; repeat (destruct Hr as [<-|Hr]; [vm_compute; reflexivity|]); destruct Hr|]).
+  destruct Hg.
+Qed.
+Print Assumptions C14_strict_nonvacuous.
